@@ -18,6 +18,7 @@ def Op.target : Op → Nat
   | .remove k _ => k
   | .removeSpecies k .. => k
   | .merge k .. => k
+  | .mergeEdges k .. => k
   | .copy _ j => j
   | .assignMol k .. => k
   | .setMolMap k .. => k
@@ -534,6 +535,66 @@ theorem normSide_nodup (raw : List (String × Int)) : (normSide raw).keys.Nodup 
     · exact nodup_keys_set _ _ _ h
     · exact h
 
+/-- What one raw `(species, count)` entry contributes to the coefficient of `sp`. -/
+def rawContrib (sp : String) (kv : String × Int) : Nat :=
+  if kv.1 = sp ∧ kv.2 > 0 then kv.2.toNat else 0
+
+/-- What one element of a non-mapping side input contributes to the coefficient of `sp`:
+a pair its count when positive, a non-empty label one. -/
+def itemContrib (sp : String) : SideItem → Nat
+  | .pair s c => if s = sp ∧ c > 0 then c.toNat else 0
+  | .label s => if s = sp ∧ s ≠ "" then 1 else 0
+
+theorem normSide_foldl_getD (raw : List (String × Int)) (sp : String) : ∀ out : Side,
+    (raw.foldl (fun out kv => if kv.2 > 0 then out.set kv.1 (out.getD kv.1 0 + kv.2.toNat) else out)
+      out).getD sp 0 = out.getD sp 0 + (raw.map (rawContrib sp)).sum := by
+  induction raw with
+  | nil => intro out; simp
+  | cons kv rest ih =>
+    intro out
+    simp only [List.foldl_cons, List.map_cons, List.sum_cons]
+    rw [ih]
+    by_cases hc : kv.2 > 0
+    · by_cases hk : kv.1 = sp
+      · subst hk
+        simp only [rawContrib, hc, and_self, if_true, getD_set_self]
+        omega
+      · have hk' : sp ≠ kv.1 := fun h => hk h.symm
+        simp only [if_pos hc, rawContrib, hk, false_and, if_false, getD_set_other _ _ _ _ _ hk']
+        omega
+    · simp only [rawContrib, hc, and_false, if_false]
+      omega
+
+/-- The normalised side is the multiset the raw input spells: the coefficient of a species is
+the sum of its positive counts. -/
+theorem normSide_coeff (raw : List (String × Int)) (sp : String) :
+    (normSide raw).getD sp 0 = (raw.map (rawContrib sp)).sum := by
+  unfold normSide
+  rw [normSide_foldl_getD]
+  simp [Dict.getD, Dict.get?]
+
+theorem rawOfItems_contrib (items : List SideItem) (sp : String) :
+    ((rawOfItems items).map (rawContrib sp)).sum = (items.map (itemContrib sp)).sum := by
+  induction items with
+  | nil => rfl
+  | cons it rest ih =>
+    cases it with
+    | pair s c =>
+      simp only [rawOfItems, List.filterMap_cons, List.map_cons, List.sum_cons] at ih ⊢
+      rw [ih]
+      simp [rawContrib, itemContrib]
+    | label s =>
+      simp only [rawOfItems, List.filterMap_cons, List.map_cons, List.sum_cons] at ih ⊢
+      by_cases hs : s = ""
+      · simp only [hs, if_true] at ih ⊢
+        rw [ih]
+        simp [itemContrib]
+      · simp only [hs, if_false, List.map_cons, List.sum_cons] at ih ⊢
+        rw [ih]
+        by_cases h2 : s = sp
+        · subst h2; simp [rawContrib, itemContrib, hs]
+        · simp [rawContrib, itemContrib, h2]
+
 theorem add_inv (s : Store) (r p rule eid) (h : s.Inv) : (s.add r p rule eid).1.Inv :=
   addNorm_inv s _ _ rule eid h (normSide_nodup r) (normSide_nodup p)
 
@@ -560,6 +621,28 @@ theorem merge_inv (other : List Edge) (pfx : Bool) : ∀ (s : Store), s.Inv →
     · rename_i s2 err heq
       rw [heq] at h2
       exact h2
+
+/-- `merge` with a foreign `other` keeps the invariant, whatever the foreign edges look like
+(missing / duplicated / clashing ids, empty rule, sides in any accepted form). -/
+theorem mergeForeign_inv (other : List FEdge) (pfx : Bool) : ∀ (s : Store), s.Inv →
+    (s.mergeForeign other pfx).1.Inv := by
+  induction other with
+  | nil => intro s h; exact h
+  | cons e rest ih =>
+    intro s h
+    unfold Store.mergeForeign
+    have h1 := merge_inv [e.toEdge] (pfx || e.id.isNone) s h (by
+      intro e' he'
+      simp only [List.mem_singleton] at he'
+      subst he'
+      exact ⟨normSide_nodup _, normSide_nodup _⟩)
+    split
+    · rename_i s1 _ heq
+      rw [heq] at h1
+      exact ih s1 h1
+    · rename_i s1 err heq
+      rw [heq] at h1
+      exact h1
 
 /-- What a successful `merge` does to the reaction table: the old reactions are untouched and
 one reaction per reaction of the other network is appended, with that reaction's rule and
@@ -590,6 +673,34 @@ theorem merge_edges' (other : List Edge) (pfx : Bool) : ∀ (s s' : Store),
       refine ⟨⟨i, normRule (some e.rule), e.reactants, e.products⟩ :: added, ?_, ?_⟩
       · rw [ha, h2]; simp [Store.insertEdge, h0, hs1]
       · simp [hb]
+    · simp at h
+
+/-- What a successful `merge` of a foreign object does to the reaction table: one reaction per
+foreign edge is appended, with that edge's rule (`""` becomes `"r"`) and its normalised sides. -/
+theorem mergeForeign_edges' (other : List FEdge) (pfx : Bool) : ∀ (s s' : Store),
+    s.mergeForeign other pfx = (s', .ok ()) →
+    ∃ added : List Edge, s'.edges = s.edges ++ added ∧
+      added.map (fun e => (e.rule, e.reactants, e.products)) =
+        other.map (fun e => (normRule (some e.rule), normSide (rawOfItems e.reactants),
+          normSide (rawOfItems e.products))) := by
+  induction other with
+  | nil =>
+    intro s s' h
+    simp only [Store.mergeForeign, Prod.mk.injEq] at h
+    exact ⟨[], by simp [h.1], rfl⟩
+  | cons e rest ih =>
+    intro s s' h
+    unfold Store.mergeForeign at h
+    split at h
+    · rename_i s1 u heq
+      have hu : u = () := rfl
+      subst hu
+      obtain ⟨a1, ha1, hb1⟩ := merge_edges' [e.toEdge] (pfx || e.id.isNone) s s1 heq
+      obtain ⟨a2, ha2, hb2⟩ := ih s1 s' h
+      refine ⟨a1 ++ a2, ?_, ?_⟩
+      · rw [ha2, ha1, List.append_assoc]
+      · rw [List.map_append, hb1, hb2]
+        simp [FEdge.toEdge]
     · simp at h
 
 theorem assignMol_inv (s : Store) (sp m : String) (h : s.Inv) : (s.assignMol sp m).1.Inv := by
@@ -1183,11 +1294,18 @@ theorem step_inv (w : World) (op : Op) (h : ∀ s ∈ w, s.Inv) : ∀ s ∈ (ste
     simp only
     split
     · rename_i s o hk hj
-      split
-      · exact h
-      · exact put_inv w k _ h (merge_inv o.edges pfx s (h s (List.mem_of_getElem? hk))
+      exact put_inv w k _ h (merge_inv o.edges pfx s (h s (List.mem_of_getElem? hk))
           (h o (List.mem_of_getElem? hj)).sides_wf)
     · exact h
+  | mergeEdges k other pfx =>
+    simp only
+    split
+    · exact h
+    · rename_i s hk
+      split
+      · exact h
+      · rename_i es
+        exact put_inv w k _ h (mergeForeign_inv es pfx s (h s (List.mem_of_getElem? hk)))
   | copy k j =>
     simp only
     split
